@@ -1554,6 +1554,8 @@ class LangServer:
         try:
             with open(config_path) as jsonfile:
                 config_dict = json5.load(jsonfile)
+                if not isinstance(config_dict, dict):
+                    raise ValueError("top-level value must be an object")
 
                 # Include and Exclude directories
                 self._load_config_file_dirs(config_dict)
@@ -1571,11 +1573,11 @@ class LangServer:
                 if debugging != self.debug_log and not self.debug_log:
                     self.debug_log = True
 
-        except FileNotFoundError:
+        except OSError:
             self.post_message(f"Configuration file '{self.config}' not found")
 
-        # Erroneous json file syntax
-        except ValueError as e:
+        # Erroneous json file syntax or option values of the wrong type
+        except (ValueError, TypeError, AttributeError) as e:
             msg = f'Error: "{e}" while reading "{self.config}" Configuration file'
             self.post_message(msg)
 
